@@ -378,7 +378,12 @@ class KroneckerProductTriangularLinearOperator(KroneckerProductLinearOperator, _
                 "Components of KroneckerProductTriangularLinearOperator must be TriangularLinearOperator."
             )
         super().__init__(*linear_ops)
+        # `upper` is a constructor argument: record it so that copies / conversions / rebuilds keep the orientation
+        self._nondifferentiable_kwargs["upper"] = upper
         self.upper = upper
+
+    def _transpose_nonbatch(self):
+        return self.__class__(*(linear_op._transpose_nonbatch() for linear_op in self.linear_ops), upper=not self.upper)
 
     @cached
     def inverse(self: Float[LinearOperator, "*batch N N"]) -> Float[LinearOperator, "*batch N N"]:
